@@ -310,13 +310,16 @@ typedef struct
 	int  nonseek ;				/* behave like a pipe: seek fails, length unknown */
 	sf_count_t accepted ;		/* highest byte the store ever accepted */
 	long fault_at2 ; int fault_kind2 ;	/* optional second single-shot fault point */
+	long nwrite_done, snap_wdone ;	/* write callbacks that stored data; their number when the snapshot was taken */
+	int snap_want ; unsigned char *snap ; sf_count_t snap_len ;	/* snap_want: keep a copy of the image as it was when the first fault fired (everything accepted before the failure) */
 } MEMF ;
 
+static inline void mv_snap (MEMF *m) { if (m->snap_want && m->snap == NULL) { m->snap = malloc ((size_t) m->len + 1) ; if (m->len > 0) memcpy (m->snap, m->d, (size_t) m->len) ; m->snap_len = m->len ; m->snap_wdone = m->nwrite_done ; } }
 static inline int mv_fault (MEMF *m)
 {	if (m->budget > 0 && m->ncalls > m->budget) vh_logical_hang ("virtual I/O callback budget exhausted") ;
-	if (m->fault_at2 > 0 && m->ncalls == m->fault_at2) { m->fired++ ; return m->fault_kind2 ; }
+	if (m->fault_at2 > 0 && m->ncalls == m->fault_at2) { m->fired++ ; mv_snap (m) ; return m->fault_kind2 ; }
 	if (m->fault_at <= 0) return 0 ;
-	if (m->ncalls == m->fault_at || (m->fault_persist && m->ncalls > m->fault_at)) { m->fired++ ; return m->fault_kind ; }
+	if (m->ncalls == m->fault_at || (m->fault_persist && m->ncalls > m->fault_at)) { m->fired++ ; mv_snap (m) ; return m->fault_kind ; }
 	return 0 ;
 }
 static sf_count_t mv_len (void *u)
@@ -348,6 +351,7 @@ static sf_count_t mv_write (const void *ptr, sf_count_t c, void *u)
 	{	sf_count_t nc = (m->pos + c) * 2 + 4096 ; m->d = realloc (m->d, nc) ; memset (m->d + m->cap, 0, nc - m->cap) ; m->cap = nc ; }
 	if (m->pos > m->len) memset (m->d + m->len, 0, m->pos - m->len) ;
 	memcpy (m->d + m->pos, ptr, c) ; m->pos += c ; if (m->pos > m->len) m->len = m->pos ;
+	m->nwrite_done++ ;
 	return c ; }
 static sf_count_t mv_tell (void *u)
 {	MEMF *m = u ; int k ; m->ncalls++ ; m->ntell++ ; k = mv_fault (m) ;
@@ -438,6 +442,7 @@ static int vh_accepts (int format, int ch, int rate)
 /* ---- facts about encodings, written from the format documents / property text, not read from the library */
 static int vh_is_pcm_int (int sub) { return sub == SF_FORMAT_PCM_S8 || sub == SF_FORMAT_PCM_U8 || sub == SF_FORMAT_PCM_16 || sub == SF_FORMAT_PCM_24 || sub == SF_FORMAT_PCM_32 ; }
 static int vh_is_fp (int sub) { return sub == SF_FORMAT_FLOAT || sub == SF_FORMAT_DOUBLE ; }
+static int vh_is_alac (int format) { int sub = format & SF_FORMAT_SUBMASK ; return sub == SF_FORMAT_ALAC_16 || sub == SF_FORMAT_ALAC_20 || sub == SF_FORMAT_ALAC_24 || sub == SF_FORMAT_ALAC_32 ; }
 static int vh_is_g711 (int sub) { return sub == SF_FORMAT_ULAW || sub == SF_FORMAT_ALAW ; }
 /* one stored code per sample, fixed width: the "sample-granular" encodings */
 static int vh_sample_granular (int format)
